@@ -188,6 +188,15 @@ def run(chk):
         for fi, subs in enumerate((sa, sb, sc_)):
             files[names[fi]] = ["# file %d" % fi] + ["%include " + rel[(names[fi], names[j])] for j in subs]
         sc.add(0, files, main="d/a.conf", meta={"shape": "include-graph"})
+    # %include arguments that cannot be opened: missing files, unknown schemes, malformed URLs, fragments
+    BAD_INC = ["nosuch.conf", "foo:bar", "mailto:x", "c.co:nf", "http://[", "file:///nonexistent/zcv/x.conf", "sub/",
+               "#frag", "a.conf#frag", "file://otherhost.invalid/x", "//x/y", "\\\\server\\share", "x y.conf", "%41.conf",
+               "file:", "file:///", ":", "a:", "1:2"]
+    for arg in BAD_INC:
+        for where in (0, 1):
+            files = {"d/main.conf": ["# main", "%include " + arg] if where == 0 else ["%include inner.conf"],
+                     "d/inner.conf": ["# inner", "%include " + arg]}
+            sc.add(0, files, meta={"shape": "include-unopenable", "resolve": {("d", arg): None}})
     outs = sc.run_spec(chk)
     scenario.replay_all(chk, sc, outs, compare)
     validator_runs(chk, sc, outs, rng, 150 if quick else 1500)
